@@ -336,6 +336,35 @@ def h_single_valued():
     return Harness("single-valued", run, spec=Spec())
 
 
+def h_bind_owner():
+    """reading or assigning a managed container binds it to THAT owner, whoever it was bound to before (a container handed over
+    from another individual's field records its writes for the individual that holds it now)"""
+    def run(vm):
+        ctx = vm.ctx
+        owner, elems, rel, desc = setup(vm, "list")
+        Owner = cls(vm, "pyvc_synth_c16", "Owner")
+        from pyvc.values import SInt
+        other = vm.alloc(Owner, {"size": SInt(ctx.fresh_int("other_size"))}, tag="previous-owner")
+        for kind in ("MonitoredList", "MonitoredSet"):
+            for before in ("unbound", "bound-to-another-individual", "bound-to-this-one"):
+                cont = vm.call(cls(vm, MC, kind), [], {"descriptor": desc})
+                if before != "unbound":
+                    vm.call_method(cont, "_bind_owner", other if before.startswith("bound-to-another") else owner)
+                vm.call(vm._getattr(cls(vm, PD, "PropertyDescriptor"), "_bind_owner_if_container_type"), [cont], {"owner": owner})
+                now = vm._getattr(cont, "_owner")
+                ctx.check("PropertyDescriptor._bind_owner_if_container_type::the-container-is-bound-to-the-individual-that-holds-it-now",
+                          z3.BoolVal(now is owner), detail=f"{kind}, {before}: owner afterwards {now!r}")
+        # and a write through it afterwards is recorded for that individual
+        cont = vm.call(cls(vm, MC, "MonitoredList"), [], {"descriptor": desc})
+        vm.call_method(cont, "_bind_owner", other)
+        owner.fields["_items"] = cont
+        del rel[:]
+        run_stmt(vm, "owner.items.append(e1)", {"owner": owner, "e1": elems["e1"]})
+        ctx.check("PropertyDescriptor.__get__::a-write-through-a-handed-over-container-is-recorded-for-its-present-holder",
+                  z3.BoolVal(len(rel) == 1 and rel[0][0] is owner and rel[0][1] is elems["e1"]), detail=repr(rel))
+    return Harness("bind-owner", run, spec=Spec())
+
+
 def h_canary():
     def run(vm):
         owner, E, rel, desc = setup(vm, "list")
@@ -352,7 +381,7 @@ def harnesses():
         for init in INITIALS:
             hs.append(h_ops(kind, init))
     hs += [h_any_length("list", "assign"), h_any_length("set", "assign"), h_any_length("list", "extend"), h_any_length("set", "update")]
-    hs += [h_inferred_paths(), h_single_valued(), h_canary()]
+    hs += [h_inferred_paths(), h_single_valued(), h_bind_owner(), h_canary()]
     return hs
 
 
